@@ -26,39 +26,98 @@ func runC10pre(toks []string) string {
 			trials = int(atoi(t[7:]))
 		}
 	}
-	conclusive, postponed, first := 0, 0, int64(-1)
-	for i := 0; i < trials; i++ {
+	// one trial: sleepers extra goroutines waking at b as well; withX: the witness task X due at b is outstanding.
+	// returns (conclusive, Y's arrival offset after b); without X conclusive is unknown (false)
+	trial := func(i int, withX bool) (bool, int64) {
 		b := nextTick() + second
 		q := taskx.NewQueue(taskx.WithSize(8), taskx.WithErrorLogger(func(string, ...any) {}))
 		sleepUntil(b, -second/2)
-		q.SendDelayed(time.Duration(second/2), func(any) (any, error) { return "X", nil })
+		if withX {
+			q.SendDelayed(time.Duration(second/2), func(any) (any, error) { return "X", nil })
+		}
 		// a varying number of other sleepers due at the same instant: changes the order in which the runtime wakes
-		// the goroutines (and runs the ticker) at B
+		// the goroutines (and runs the ticker) at b
 		for k := 0; k < i%4; k++ {
 			go func() { sleepUntil(b, 0) }()
 		}
 		sleepUntil(b, 0)
-		if len(q.C) != 0 {
-			continue // the scheduler handled the tick B before this goroutine ran
+		if withX && len(q.C) != 0 {
+			return false, 0 // the scheduler handled the tick b before this goroutine ran
 		}
-		conclusive++
 		q.SendDelayed(0, func(any) (any, error) { return "Y", nil })
-		got := 0
+		want := 1
+		if withX {
+			want = 2
+		}
 		var yAt int64
-		for got < 2 {
+		for got := 0; got < want; got++ {
 			task := <-q.C
 			task.Do(nil)
 			if v := task.Get1(); v == "Y" {
 				yAt = time.Now().UnixNano() - b
 			}
-			got++
 		}
+		return withX, yAt
+	}
+	conclusive, postponed, first := 0, 0, int64(-1)
+	// pairs: the same configuration once with the witness X and once with Y as the ONLY outstanding request (empty
+	// heap when the tick is handled). The order in which the goroutines wake at b is a function of the timers created,
+	// which X does not change, so a configuration that is conclusive with X is expected to be so without it.
+	pairs, alonePostponed := 0, 0
+	for i := 0; i < trials; i++ {
+		c, yAt := trial(i, true)
+		if !c {
+			continue
+		}
+		conclusive++
 		if yAt >= second {
 			postponed++
 			if first < 0 {
 				first = yAt
 			}
 		}
+		pairs++
+		if _, y2 := trial(i, false); y2 >= second {
+			alonePostponed++
+		}
 	}
-	return fmt.Sprintf("conclusive=%d postponed=%d first=%d", conclusive, postponed, first)
+	// burst: more hand-overs than the channel buffers (128) at the tick instant, each made while X has not been placed
+	bc, bp := c10preBurst(200)
+	return fmt.Sprintf("conclusive=%d postponed=%d first=%d pairs=%d alone_postponed=%d burst=%d burst_postponed=%d", conclusive, postponed, first, pairs, alonePostponed, bc, bp)
+}
+
+// c10preBurst: one goroutine, woken at the tick instant b before the scheduler handled that tick (witness X, due at b,
+// not placed yet), hands over up to n delay-0 requests back to back, looking at the witness before each one; the
+// hand-over channel buffers 128, so the 129th call parks in the channel's send queue and the scheduler runs. Every
+// request whose call STARTED before the tick was handled is due at b. Returns how many there were and how many of them
+// were placed a whole tick later. Tries several wake-up configurations until the goroutine runs first.
+func c10preBurst(n int) (int, int) {
+	for attempt := 0; attempt < 12; attempt++ {
+		b := nextTick() + second
+		q := taskx.NewQueue(taskx.WithSize(n+8), taskx.WithErrorLogger(func(string, ...any) {}))
+		sleepUntil(b, -second/2)
+		q.SendDelayed(time.Duration(second/2), func(any) (any, error) { return -1, nil })
+		for k := 0; k < attempt%4; k++ {
+			go func() { sleepUntil(b, 0) }()
+		}
+		sleepUntil(b, 0)
+		started := 0
+		for k := 0; k < n && len(q.C) == 0; k++ {
+			started++
+			k := k
+			q.SendDelayed(0, func(any) (any, error) { return k, nil })
+		}
+		postponed := 0
+		for got := 0; got < started+1; got++ {
+			task := <-q.C
+			task.Do(nil)
+			if v, _ := task.Get1().(int); v >= 0 && time.Now().UnixNano()-b >= second {
+				postponed++
+			}
+		}
+		if started > 0 {
+			return started, postponed
+		}
+	}
+	return 0, 0
 }
